@@ -165,7 +165,7 @@ mutual
         | interface k =>
           simp only [hid, Bool.and_eq_true] at hty
           obtain ⟨hok1, _, _⟩ := absOkS_parts hty.2
-          obtain ⟨_, _, _, _, _, hin, _, _⟩ := absOk_parts hok1
+          obtain ⟨_, _, _, _, _, hin, _, _⟩ := absOk2_parts hok1
           have := depth_abs c K (pfx ++ c.cs.camel (a.getD sf.name)) _ sub hin
             (IH (pfx ++ c.cs.camel (a.getD sf.name)) true hty.1.2 hK)
           have := renderType_length_pos c (pfx ++ c.cs.camel (a.getD sf.name))
@@ -175,7 +175,7 @@ mutual
         | union k =>
           simp only [hid, Bool.and_eq_true] at hty
           obtain ⟨hok1, _, _⟩ := absOkS_parts hty.2
-          obtain ⟨_, _, _, _, _, hin, _, _⟩ := absOk_parts hok1
+          obtain ⟨_, _, _, _, _, hin, _, _⟩ := absOk2_parts hok1
           have := depth_abs c K (pfx ++ c.cs.camel (a.getD sf.name)) _ sub hin
             (IH (pfx ++ c.cs.camel (a.getD sf.name)) true hty.1.2 hK)
           have := renderType_length_pos c (pfx ++ c.cs.camel (a.getD sf.name))
@@ -243,7 +243,7 @@ theorem fragOkAny_of_abs {s : Schema} {q : Query} {o : Options} {ty : TypeId} {s
     (hok : absOkS s q o ty sub = true) : ∀ g, Sel.spread g ∈ sub → FragOkAny s q o g := by
   intro g hg
   obtain ⟨hok1, hsp, _⟩ := absOkS_parts hok
-  obtain ⟨_, _, hobj, _⟩ := absOk_parts hok1
+  obtain ⟨_, _, hobj, _⟩ := absOk2_parts hok1
   rcases hsp g hg with ⟨vt, _, hvt, hfok, _⟩ | ⟨_, hfok, _⟩
   · obtain ⟨i, rfl, _⟩ := hobj vt hvt
     exact .inl ⟨i, hfok⟩
@@ -457,7 +457,7 @@ mutual
         | interface k =>
           simp only [hid, Bool.and_eq_true] at hty hit ⊢
           obtain ⟨hok1, hsp, _⟩ := absOkS_parts hty.2
-          obtain ⟨_, _, hobj, hne, _, hin, _, _⟩ := absOk_parts hok1
+          obtain ⟨_, _, hobj, hne, _, hin, _, _⟩ := absOk2_parts hok1
           refine ⟨absEnv_of M _ _ _ (variantsV_ne_nil c rfl rfl _ _ hne) (fun it h => hit it (by simp [h])), ?_, ?_⟩
           · intro vt hvt
             apply varEnv_of M hfr hfrB
@@ -486,7 +486,7 @@ mutual
         | union k =>
           simp only [hid, Bool.and_eq_true] at hty hit ⊢
           obtain ⟨hok1, hsp, _⟩ := absOkS_parts hty.2
-          obtain ⟨_, _, hobj, hne, _, hin, _, _⟩ := absOk_parts hok1
+          obtain ⟨_, _, hobj, hne, _, hin, _, _⟩ := absOk2_parts hok1
           refine ⟨absEnv_of M _ _ _ (variantsV_ne_nil c rfl rfl _ _ hne) (fun it h => hit it (by simp [h])), ?_, ?_⟩
           · intro vt hvt
             apply varEnv_of M hfr hfrB
